@@ -170,7 +170,11 @@ def gen_update(rng, npr, tier, force_class=None):
             for i_ in range(n): X[i_, rng.randrange(1, 6) + (6 if i_ >= n1 else 0)] = (i_ % 2)   # avoid identical rows as far as cheap
     if cls == "tiny_stack":
         # the stacked data stay no larger than n_neighbors for two updates
-        metric = rng.choice(["euclidean", "manhattan"]); k = 15; sizes = [6, 5, 3, 12]; n = sum(sizes); n1 = 6; d = 4
+        metric = rng.choice(["euclidean", "manhattan"]); k = 15; d = 4
+        # either the stack stays below n_neighbors for two updates, or one update lands EXACTLY on n_neighbors samples (the boundary of
+        # fit's truncation rule n <= n_neighbors)
+        gen_update.tiny = getattr(gen_update, "tiny", -1) + 1
+        sizes = [[6, 5, 3, 12], [10, 5, 4], [9, 6, 8], [5, 3, 7, 6]][gen_update.tiny % 4]; n = sum(sizes); n1 = sizes[0]
         X = npr.normal(size=(n, d))
     sparse = False
     if cls == "sparse_special":
@@ -178,8 +182,16 @@ def gen_update(rng, npr, tier, force_class=None):
         metric = rng.choice(["chebyshev", "canberra", "braycurtis"]); sparse = True
         X = np.abs(npr.normal(size=(n, d))) * (npr.random(size=(n, d)) < 0.7) + 0.0
         X[X.sum(axis=1) == 0, 0] = 1.0
+    unseeded = False
+    if cls == "sparse_cosine_jobs":
+        # CSR input with a metric scikit-learn evaluates on sparse data by name, an UNSEEDED model (so n_jobs is not forced to 1) and n_jobs = 2
+        metric = "cosine"; sparse = True; unseeded = True
+        X = np.abs(npr.normal(size=(n, max(d, 6)))) * (npr.random(size=(n, max(d, 6))) < 0.7) + 0.0
+        X[X.sum(axis=1) == 0, 0] = 1.0
     X = X.astype(np.float32)
     p = dict(n_neighbors=k, metric=metric, n_epochs=11, random_state=rng.randrange(1000), set_op_mix_ratio=rng.choice([1.0, 1.0, 0.5]))
+    if unseeded:
+        p["random_state"] = None; p["n_jobs"] = 2
     if cls == "disc":
         Dm = pairwise_distances(X, metric=UD.named_distances[metric])
         kth = np.sort(Dm, axis=1)[:, min(k, n - 1) - 1]
@@ -348,6 +360,7 @@ def few_threads():
 
 
 def run(ctx):
+    gen_update.tiny = -1
     few_threads()
     ctx.check_proofs(["prop/P_C11.v"])
     # translation tie: init_update regenerated from the current source (py2coq); link theorem (coq/link/L_update.v): for every
@@ -395,7 +408,7 @@ def run(ctx):
     n_upd = 36 if ctx.tier == "quick" else 600
     n_graph = 8 if ctx.tier == "quick" else 60
     max_graph_n = 44 if ctx.tier == "quick" else 60
-    forced = ["plain", "far", "n1_le_k", "disc", "two_batches", "far_two", "bounded_far", "bounded_far", "tiny_stack", "sparse_special", "sparse_special"]
+    forced = ["plain", "far", "n1_le_k", "disc", "two_batches", "far_two", "bounded_far", "bounded_far", "tiny_stack", "tiny_stack", "sparse_special", "sparse_special", "sparse_cosine_jobs"]
     kterms, kcases, gterms, gcases = [], [], [], []
     for c in range(n_upd):
         case = gen_update(rng, npr, ctx.tier, forced[c] if c < len(forced) else None)
